@@ -136,9 +136,20 @@ def cls_common(mon, ident, start, final, lat, pm=False):
         mon.cls("non-zero-proper-motion", ident)
 
 
-def key_polar(lats, err, factor=1.0):
-    """asin()-based declination near the south pole / acos near neither:
-    same conditioning mechanism as C05 (8 ulp / sin(polar distance))."""
+def key_polar(lats, err, factor=1.0, which=None):
+    """asin()-based declination near a pole: same conditioning mechanism as
+    C05 (8 ulp / sin(polar distance)).  precession_equatorial has a dedicated
+    acos() branch for declinations above +85, good to 3e-14 deg right up to
+    the north pole (measured), so for it only the south cap is explained."""
+    if which == "equ":
+        # lats is a list of (starting declination, computed declination):
+        # the computed one went through asin() unless the starting one was
+        # above +85 degrees
+        lats = [res for st, res in lats if res < 0.0 or st <= 85.0]
+        if not lats:
+            return None
+    elif lats and isinstance(lats[0], tuple):
+        lats = [v for pair in lats for v in pair]
     pd = min(90.0 - abs(v) for v in lats)
     if pd >= 0.01 or err is None:
         return None
@@ -171,14 +182,14 @@ def case_rotation(mon, which, start, final, lon1, lat1, lon2, lat2):
         err = sp.sep_ll(lon1, lat1, a1, b1)
         mon.check("identity.zero-interval", err <= 1e-9,
                   dict(case, result=[a1, b1], error_deg=err),
-                  key_polar((lat1, b1), err))
+                  key_polar([(lat1, b1)], err, which=which))
     err = sp.sep_ll(lon1, lat1, r1, s1)
     tol = 1e-9 if which == "equ" else 1e-6
     mon.stat("there_and_back_%s_deg(|dec|<89.99)" % name,
              err if max(abs(lat1), abs(b1)) < 89.99 else 0.0, case)
     mon.check("there-and-back." + name, err <= tol,
               lambda: dict(case, there=[a1, b1], back=[r1, s1],
-                           error_deg=err), key_polar((lat1, b1, s1), err))
+                           error_deg=err), key_polar([(lat1, b1), (b1, s1)], err, which=which))
     before = sp.sep_ll(lon1, lat1, lon2, lat2)
     after = sp.sep_ll(a1, b1, a2, b2)
     mon.stat("isometry_%s_deg(|dec|<89.99)" % name, abs(before - after)
@@ -186,7 +197,8 @@ def case_rotation(mon, which, start, final, lon1, lat1, lon2, lat2):
              case)
     mon.check("isometry." + name, abs(before - after) <= 1e-9,
               lambda: dict(case, before=before, after=after),
-              key_polar((lat1, b1, lat2, b2), abs(before - after), 2.0))
+              key_polar([(lat1, b1), (lat2, b2)], abs(before - after),
+                        2.0, which=which))
 
 
 def key_range(which, lat0, lat1):
@@ -241,8 +253,9 @@ def case_pm(mon, which, start, final, lon, lat, pml, pmb):
               and abs(d2 - d_in2) <= 1e-9,
               dict(case, displacement=d1, applied=d_in, doubled=d2,
                    applied_doubled=d_in2),
-              key_polar((lat, b0, b1, lat + pmb * years), max(
-                  abs(d1 - d_in), abs(d2 - d_in2)), 2.0))
+              key_polar([(lat, b0), (lat, b1), (lat, lat + pmb * years)],
+                        max(abs(d1 - d_in), abs(d2 - d_in2)), 2.0,
+                        which=which))
 
 
 def case_newcomb(mon, start, final, ra, dec):
